@@ -21,8 +21,9 @@ BUDGET = {'quick': 6000, 'thorough': 160000}
 
 PROFILE = {
     'weights': {'app': 14, 'idg': 5, 'rmidg': 2, 'bl': 3, 'down': 3,
-                'rmsrv': 3, 'orphanbl': 3, 'orphanrm': 3, 'clone': 5},
-    'force': ['idg', 'orphanbl', 'orphanrm', 'clone', 'rmsrv'],
+                'rmsrv': 3, 'orphanbl': 3, 'orphanrm': 3, 'orphanidg': 3,
+                'clone': 5},
+    'force': ['idg', 'orphanbl', 'orphanrm', 'orphanidg', 'clone', 'rmsrv'],
     'groups': True,
     'group_bias': True,
 }
